@@ -33,7 +33,7 @@
 //! | `u`    | `xu`   | Utf8                           | `k` in decimal followed by `abs(k) % 5` times `#`    |
 //! | `U`    | `xU`   | LargeUtf8                      | same                                                 |
 //! | `f`    | `xf`   | Float32                        | `k as f32` (exact: `abs(k) <= EXTRA_KEY_MAX = 2^20`) |
-//! | `s`    | `xs`   | Struct{a: Int32, b: Utf8}      | `a = k`, `b = "t<k>"`; NULL key = both children NULL (the struct itself is never NULL) |
+//! | `s`    | `xs`   | Struct{a: Int32, b: Utf8}      | `a = k`, `b = "t<k>"`; NULL key = both children NULL (written so; a NULL struct also decodes to NULL) |
 //! | `l`    | `xl`   | List<Int32>                    | `[k, k+1, …]` of length `abs(k) % 3 + 1`; NULL key = NULL list |
 //!
 //! A NULL key is a NULL value.  A row of the table is therefore `K + len(x)` cells, every cell an `Option<i64>`:
@@ -329,8 +329,8 @@ impl SchemaSpec {
     }
     /// parse the values of the `k=` and `x=` tokens; letters must be distinct, width must be >= 1
     pub fn parse(k: &str, x: &str) -> Option<Self> {
-        let ints: usize = k.parse().ok()?;
-        if ints > 64 {
+        let ints: usize = parse_opt_usize(k)??;
+        if ints > 64 || x.is_empty() {
             return None;
         }
         let mut extras = vec![];
@@ -361,6 +361,22 @@ impl SchemaSpec {
             fields.push(Field::new(e.column(), e.data_type(), true));
         }
         Arc::new(ArrowSchema::new(fields))
+    }
+    /// Int64 / Float32 columns: the legacy (0.1) format stores no validity for them (NULL reads back as 0)
+    pub fn fixed_width(&self, col: usize) -> bool {
+        col < self.ints || self.extras.get(col - self.ints) == Some(&Extra::Float32)
+    }
+    /// what `rows` read back as after a write with storage version `ver` (identity except for legacy NULLs of
+    /// fixed-width columns, which come back as 0 — known finding `legacy_nulls_lost`)
+    pub fn stored(&self, ver: Ver, rows: &[Row]) -> Vec<Row> {
+        rows.iter()
+            .map(|r| {
+                r.iter()
+                    .enumerate()
+                    .map(|(i, c)| if ver == Ver::Legacy && c.is_none() && self.fixed_width(i) { Some(0) } else { *c })
+                    .collect()
+            })
+            .collect()
     }
     /// width and extra-key range check (mirrored by `LanceModel.Table.rowsOk`)
     pub fn check_rows(&self, rows: &[Row]) -> bool {
@@ -483,7 +499,9 @@ impl SchemaSpec {
                     Extra::Struct => {
                         let s = a.as_struct();
                         if s.is_null(r) {
-                            return Err(bad(&name, r, "struct is NULL (never written)".into()));
+                            // never written as such; it is what a column missing from a fragment reads as
+                            row.push(None);
+                            continue;
                         }
                         let fa = s
                             .column_by_name("a")
@@ -757,7 +775,7 @@ impl Kit {
 
     fn reader(spec: &SchemaSpec, batches: &[Vec<Row>]) -> RecordBatchIterator<std::vec::IntoIter<std::result::Result<RecordBatch, arrow_schema::ArrowError>>> {
         let bs: Vec<_> = batches.iter().map(|b| Ok(spec.batch(b))).collect();
-        RecordBatchIterator::new(bs, spec.arrow_schema())
+        RecordBatchIterator::new(bs.into_iter(), spec.arrow_schema())
     }
 
     /// `Dataset::write` with the given mode.  `dest`: `Err(uri)` writes to a uri (lance looks the dataset up itself),
